@@ -1012,7 +1012,7 @@ class Processor:
             try:
                 # Try using the ref as a bare Array index
                 idx = int(str_stripped)
-                if len(data) > idx:
+                if -len(data) <= idx < len(data):
                     self.logger.debug(
                         "Processor::_get_nodes_by_key:  FOUND key node as a"
                         " bare Array index at [{}]."
@@ -1164,7 +1164,7 @@ class Processor:
                     str(unstripped_attrs)
                 ) from wrap_ex
 
-            if isinstance(data, list) and len(data) > idx:
+            if isinstance(data, list) and -len(data) <= idx < len(data):
                 yield NodeCoords(
                     data[idx], data, idx, translated_path + "[{}]".format(idx),
                     ancestry + [(data, idx)], pathseg)
@@ -2530,6 +2530,14 @@ class Processor:
                                     str(yaml_path),
                                     except_segment
                                 ) from wrap_ex
+                        if newidx < 0:
+                            raise YAMLPathException(
+                                ("Cannot add negative {} subreference to"
+                                 + " lists")
+                                .format(str(segment_type)),
+                                str(yaml_path),
+                                except_segment
+                            )
                         for _ in range(len(data) - 1, newidx):
                             next_node = Nodes.build_next_node(
                                 yaml_path, depth + 1, value
